@@ -128,6 +128,8 @@ pub enum ReadEv {
 pub enum WriteEv {
     /// accept min(k, offered) bytes, at least 1
     Accept(usize),
+    /// accept all but k of the offered bytes, at least 1
+    AllBut(usize),
     /// not ready (async only; skipped by the blocking executor)
     Pending,
     /// not ready + clock moves (async only)
@@ -158,11 +160,19 @@ pub struct StreamScenario {
     pub imp: Imp,
     pub mode: SizeMode,
     pub verify_version: bool,
+    /// false (only meaningful with verify_version == false): never call the setter, relying on
+    /// the documented default of `Framed::new`
+    #[serde(default = "yes")]
+    pub explicit_gate: bool,
     #[serde(with = "hex")]
     pub inbound: Vec<u8>,
     pub reads: Vec<ReadEv>,
     pub writes: Vec<WriteEv>,
     pub ops: Vec<AppOp>,
+}
+
+fn yes() -> bool {
+    true
 }
 
 impl StreamScenario {
